@@ -117,6 +117,20 @@ def run(pid, tier):
     by_id = {c['id']: c for c in cases + sol_cases}
     tab_by_id = {'csv%d' % x['c']: x for x in tabs}
     init_by_id = {'in-' + c['id']: c for c in inits}
+    def overused_conditional(case, written):
+        """the written solution uses more breaks / reloads in a tour than the shift defines: an invalid solution (C02), not a reader matter"""
+        shifts = {(vid, si): sh for v in case['problem']['fleet']['vehicles'] for vid in v['vehicleIds'] for si, sh in enumerate(v['shifts'])}
+        for t in written.get('tours', []):
+            sh = shifts.get((t['vehicleId'], t['shiftIndex']), {})
+            for kind, key in (('break', 'breaks'), ('reload', 'reloads')):
+                used = sum(1 for s in t['stops'] for a in s['activities'] if a['type'] == kind)
+                if used > len(sh.get(key) or []):
+                    return True
+        return False
+    invalid_written = 0
+    for r in res:
+        if r['kind'] == 'init' and r['status'] in ('init-err', 'rewrite-err') and 'written' in r and overused_conditional(init_by_id[r['id']], r['written']):
+            r['status'] = 'solve-err'; invalid_written += 1
     recs, details = [], {}
     for r in res + res2:
         rec = {'id': r['id'], 'kind': r['kind'], 'status': r['status'], 'fixpoint': bool(r.get('fixpoint', False)),
@@ -192,7 +206,7 @@ def run(pid, tier):
            'samples': [{'id': recs[-3]['id'], 'rows': recs[-3]['rows'], 'vrows': recs[-3]['vrows'], 'imported': recs[-3]['P']}], 'exhaustive': False,
            'records_by_kind': {'%s %s' % k: v for k, v in kinds.items()}, 'init_status': dict(collections.Counter(r['status'] for r in recs if r['kind'] == 'init')),
            'first_pass_differs_from_original_document': sum(1 for r in res + res2 if r['kind'] == 'doc' and r.get('status') == 'ok' and not r.get('firstPassSame')),
-           'canaries_rejected': len(cans), 'known_finding_hits': {k: len(v) for k, v in verdict.known_hits.items()}}
+           'written_solutions_with_a_break_or_reload_used_twice_left_to_C02': invalid_written, 'canaries_rejected': len(cans), 'known_finding_hits': {k: len(v) for k, v in verdict.known_hits.items()}}
     common.write_evidence(pid, tier, 'model_checking', cov, time.time() - t0, len(verdict.violations),
                           ['document equality is computed by the harness on JSON values (TLC reads no floating point numbers); the float palette is what the generators produce (integers, halves, quarters, RFC3339 dates); '
                            'place identity = location + tag; CSV tables: 1-3 job rows, 1-2 vehicle rows over small palettes'])
